@@ -654,6 +654,7 @@ func brScenarios(tier string) []engine.Scenario {
 	pairs := [][2]int{{4, 5}, {4, 6}, {5, 7}}
 	variants := brVariants
 	if tier == "thorough" {
+		pairs = append(pairs, [2]int{5, 5}) // equal ring degrees
 		// the same four paths with the NTT flags of both parameter sets flipped, and a digit-decomposed single-P key
 		for _, v := range brVariants {
 			w := v
